@@ -99,6 +99,8 @@ def gen_cases(tier, seed):
             spec += [{"p": "nst", "k": "d"}, {"p": "nst/in", "k": "d"}]
         for k in range(nsrc):
             shape = r.choice(["tree", "tree", "tree", "file", "linkfile", "emptydir", "deep", "hardlink", "linkdir"]) if k or nsrc > 1 else r.choice(["tree", "tree", "file", "linkfile", "emptydir", "deep", "linkdir"])
+            if shape == "deep" and r.random() < 0.35 and not any(s_ == "verydeep" for s_ in shapes):
+                shape = "verydeep"
             if shape == "hardlink" and not any(s_ == "file" for s_ in shapes):
                 shape = "file"
             name = "s%d" % k
@@ -117,6 +119,18 @@ def gen_cases(tier, seed):
                 files_ = [e["p"] for e in spec if e["k"] == "f" and e["p"].startswith(name + "/")]
                 if files_ and r.random() < 0.3:
                     spec.append({"p": name + "/hardlink-of-sibling", "k": "hard", "target": r.choice(files_)})
+            elif shape == "verydeep":
+                # hundreds of levels (short names: the path stays far below PATH_MAX), entries at and beyond round numbers of levels
+                spec.append({"p": name, "k": "d"})
+                cur = name
+                levels = r.choice([257, 300, 520])
+                for lv in range(1, levels + 1):
+                    cur += "/" + "abcdefgh"[lv % 8]
+                    spec.append({"p": cur, "k": "d"})
+                    if lv in (1, 127, 128, 129, 255, 256, 257, 258, 511, 512, 513, levels) or lv % 97 == 0:
+                        spec.append({"p": cur + "/f%d" % lv, "k": "f", "size": lv % 50, "seed": r.randrange(1, 1 << 30), "segs": None})
+                        if lv % 2:
+                            spec.append({"p": cur + "/l%d" % lv, "k": "l", "target": "f%d" % lv})
             elif shape == "emptydir":
                 spec.append({"p": name, "k": "d"})
             elif shape == "hardlink":
@@ -137,7 +151,7 @@ def gen_cases(tier, seed):
         # bystanders
         spec.append({"p": "by", "k": "d"})
         spec += tree.gen_tree(r, depth=1, fanout=3, kinds=("f", "d", "l"), prefix="by", max_entries=6)
-        has_dir = any(s in ("tree", "deep", "emptydir") for s in shapes)
+        has_dir = any(s in ("tree", "deep", "verydeep", "emptydir") for s in shapes)
         dstate = r.choice(["absent", "emptydir", "populated", "populated", "file", "linkdir"])
         flag = flag0
         if nsrc > 1 and dstate in ("absent", "file"):
@@ -165,7 +179,7 @@ def gen_cases(tier, seed):
                             pre.append({"p": "dst/" + os.path.basename(s) if flag != "-T" else "dst", "k": "l", "target": r.choice(["stale-target", cur + "/", cur + "/.", cur + "//"])})
                         continue
                     if flag == "-T":
-                        if shape in ("tree", "deep", "emptydir"):
+                        if shape in ("tree", "deep", "verydeep", "emptydir"):
                             pre += [e for e in older_version(r, spec, s, "dst") if e["p"] != "dst"]
                     else:
                         pre += older_version(r, spec, s, "dst/" + os.path.basename(s))
@@ -200,7 +214,7 @@ def gen_cases(tier, seed):
         dsp = r.choice(["dst", "dst", "dst/", "@ROOT@/dst", "./dst"]) if dstate != "absent" or has_dir else "dst"
         if dstate == "file":
             dsp = r.choice(["dst", "@ROOT@/dst", "./dst"])
-        srcargs = [sp(s, sh in ("tree", "deep", "emptydir")) for s, sh in zip(sources, shapes)]
+        srcargs = [sp(s, sh in ("tree", "deep", "verydeep", "emptydir")) for s, sh in zip(sources, shapes)]
         if flag == "--glob":
             args.append("--glob")
             srcargs = [r.choice(["s*", "s?", "s[0-9]"])] if r.random() < 0.7 else ["s*", "s?"]    # overlapping patterns select an entry twice
